@@ -33,6 +33,30 @@ def klass(I, key):
     return I.ctx.repo_class(I.ctx.repo.klass(key))
 
 
+def surely_json(I, v, depth=0):
+    """syntactic sufficient condition for JSON-serialisability: literal containers of scalars (ints of any size are
+    covered by the stdlib fallback of fast_json.dumps)"""
+    if depth > 5:
+        return False
+    sv = z3.simplify(v)
+    cn = V.ctor_name(sv)
+    if cn in ("none", "bool", "int", "str"):
+        return True
+    if cn == "dict":
+        ks = P.concrete_keys(sv)
+        if ks is None:
+            return False
+        return all(surely_json(I, z3.Select(Val.dvals(sv), z3.StringVal(k)), depth + 1) for k in ks)
+    if cn == "list":
+        n = z3.simplify(z3.Length(Val.items(sv)))
+        if not z3.is_int_value(n):
+            return False
+        return all(surely_json(I, Val.items(sv)[k], depth + 1) for k in range(n.as_long()))
+    if cn is None:
+        return P.entails(I, z3.Or(V.is_none(sv), V.is_bool(sv), V.is_int(sv), V.is_str(sv)))
+    return False
+
+
 class DumpsModular(Contract):
     """fast_json.dumps(obj) without indent (C17): the compact JSON text - it contains no raw line break - or an
     exception for values that cannot be serialised."""
@@ -42,9 +66,12 @@ class DumpsModular(Contract):
         obj = args[0]
         if kwargs:
             raise Unsupported("fast_json.dumps with keyword arguments at this call site", node)
+        if surely_json(I, obj):
+            I.assume(json_serialisable(obj))
         if not I.choose(json_serialisable(obj), "dumps_ok"):
             raise PyRaise(I.make_exc("TypeError", V.VStr("not JSON serializable")), "TypeError")
         t = json_text(obj)
+        I.ghost["last_dumped"] = obj
         I.assume(z3.Not(z3.Contains(t, NL)))
         I.assume(z3.Length(t) > 0)
         return V.VStr(t)
@@ -143,6 +170,8 @@ class PipeIn(E.EnvClass):
         self.methods = {"send": E.is_async(self.send), "aclose": E.is_async(self.aclose)}
 
     def send(self, I, recv, args, kwargs):
+        att = Val.items(E.gfield(I, recv, "attempted"))
+        I.set_attr(recv, "attempted", V.VList(z3.simplify(z3.Concat(att, z3.Unit(args[0])))))
         c = I.choose_n(2, "stdin_send")
         E.checkpoint_nofire(I)
         if c == 0:
@@ -199,7 +228,7 @@ PROCESS = ProcessEnv()
 def make_process(I, running=True):
     chunks = I.fresh("chunks", V.SeqVal)
     out = E.new_env_object(I, PIPE_OUT, chunks=V.VList(chunks), pos=V.VInt(0))
-    inn = E.new_env_object(I, PIPE_IN, writes=V.VList([]), closed=V.FALSE)
+    inn = E.new_env_object(I, PIPE_IN, writes=V.VList([]), attempted=V.VList([]), closed=V.FALSE)
     rc = V.NONE
     if not running:
         rc = I.fresh("rc0")
